@@ -430,9 +430,12 @@ SetStatuses(x, es, val(_)) ==
   LET bad == IF "LmtpStatusKey" \in Devs /\ \E j \in 1..Len(es) : es[j].up
              THEN CHOOSE j \in 1..Len(es) : es[j].up /\ \A k \in 1..(j - 1) : ~es[k].up
              ELSE Len(es) + 1
-      done == {es[j].r : j \in 1..(bad - 1)}
+      \* go-smtp keeps one FIFO channel per recipient string: the k-th status set for r goes to
+      \* the k-th position of r in the recipient list that has no status yet
+      cnt(r) == Cardinality({j \in 1..(bad - 1) : es[j].r = r})
+      rank(i) == Cardinality({j \in 1..i : x.rcpts[j].r = x.rcpts[i].r /\ x.lm.st[j] = 0})
       st1 == [i \in 1..Len(x.lm.st) |->
-                IF x.lm.st[i] = 0 /\ x.rcpts[i].r \in done THEN val(x.rcpts[i].r) ELSE x.lm.st[i]]
+                IF x.lm.st[i] = 0 /\ rank(i) <= cnt(x.rcpts[i].r) THEN val(x.rcpts[i].r) ELSE x.lm.st[i]]
   IN [x |-> [x EXCEPT !.lm.st = st1], panic |-> bad <= Len(es)]
 
 LmTail == <<St("lmwait"), St("lmoff")>>
